@@ -61,18 +61,21 @@ def cases(draw):
     dest_when = 'install' if backend == 'make' and draw(st.booleans()) \
         else 'configure'
     items = draw(st.lists(st.sampled_from(
-        ['prog', 'prog2', 'sa', 'sb', 'st', 'sv', 'hdr', 'hdrdir', 'man', 'manz',
+        ['prog', 'prog2', 'sa', 'sb', 'st', 'sv', 'hdr', 'hdrdir', 'hdrdir1',
+         'man', 'manz',
          'data', 'pc']), min_size=1, max_size=7, unique=True))
     opts = {}
     for it in items:
-        if it in ('prog', 'sa', 'st', 'hdr', 'hdrdir', 'man', 'manz') and \
+        if it in ('prog', 'sa', 'st', 'hdr', 'hdrdir', 'hdrdir1', 'man',
+                  'manz') and \
                 draw(st.integers(0, 3)) == 0:
             opts[it] = draw(st.sampled_from(['sub', 'a/b', 'x y']))
     return {'backend': backend, 'dirs': dirs, 'destdir': destdir,
             'dest_when': dest_when, 'items': sorted(items), 'opts': opts,
             # the build files are regenerated from the saved configuration
             # before anything is built or installed
-            'regen': draw(st.sampled_from([None, None, 'forced', 'touch'])),
+            'regen': draw(st.sampled_from([None, None, 'forced', 'touch',
+                                           'touch-install'])),
             'prog_libs': draw(st.sampled_from([['sb'], ['sa', 'st'],
                                                ['sv', 'sb'], ['st'],
                                                ['sb', 'sv', 'st']]))}
@@ -88,6 +91,7 @@ prog = executable('prog', ['prog.c'], libs=[{prog_libs}])
 prog2 = executable('tools/prog2', ['prog2.c'], libs=[sa])
 hdr = header_file('api.h')
 hdrdir = header_directory('include', include='**/*.h')
+hdrdir1 = header_directory('compat', include='**/*.h')
 man = man_page('doc/prog.1', compress=False)
 manz = man_page('doc/sub/tool.1')
 data = generic_file('data/blob.bin')
@@ -118,6 +122,9 @@ def render(case, src):
     sandbox.write_file(os.path.join(src, 'include', 'a.h'), '/* a */\n')
     sandbox.write_file(os.path.join(src, 'include', 'sub', 'b.h'), '/* b */\n')
     sandbox.write_file(os.path.join(src, 'include', 'skip.txt'), 'no\n')
+    # (a header directory whose pattern matches exactly one file)
+    sandbox.write_file(os.path.join(src, 'compat', 'v1', 'old.h'), '/* o */\n')
+    sandbox.write_file(os.path.join(src, 'compat', 'notes.txt'), 'no\n')
     sandbox.write_file(os.path.join(src, 'doc', 'prog.1'), '.TH PROG 1\n')
     sandbox.write_file(os.path.join(src, 'doc', 'sub', 'tool.1'),
                        '.TH TOOL 1\n')
@@ -217,6 +224,8 @@ def expected_tree(case, idirs):
         elif it == 'hdrdir':
             put('includedir', sub, 'a.h', ('f', 0o644))
             put('includedir', sub, 'sub/b.h', ('f', 0o644))
+        elif it == 'hdrdir1':
+            put('includedir', sub, 'v1/old.h', ('f', 0o644))
         elif it == 'man':
             put('mandir', sub, 'man1/prog.1', ('f', 0o644))
         elif it == 'manz':
@@ -309,6 +318,11 @@ def prop_install(rec):
             b = sandbox.run_backend(case['backend'], bld, env, ['all'])
             if b.rc != 0:
                 raise HarnessError('build failed: ' + (b.err + b.out)[-600:])
+            if case.get('regen') == 'touch-install':
+                # the build files regenerate themselves inside the very
+                # `make install [DESTDIR=...]` invocation
+                t = sandbox.Clock(tmp).tick(tmp)
+                os.utime(os.path.join(src, 'build.bfg'), ns=(t, t))
             before_src = sandbox.snapshot(src, content=True)
             before_bld = sandbox.snapshot(bld)
             extra = []
@@ -328,7 +342,7 @@ def prop_install(rec):
             changed = sorted(k for k in set(before_bld) | set(after_bld)
                              if before_bld.get(k) != after_bld.get(k) and
                              not k.startswith('.ninja'))
-            if changed:
+            if changed and case.get('regen') != 'touch-install':
                 raise Violation('install/touched-builddir', 'install changed '
                                 'the build directory: {}'.format(changed[:8]),
                                 case)
@@ -402,6 +416,33 @@ def prop_install(rec):
                 raise Violation('install/uninstall-leftover', 'uninstall left '
                                 '{}'.format([os.path.relpath(m, tmp)
                                              for m in sorted(left)]), case)
+            if dest and case['dest_when'] == 'install':
+                # the staging directory was a property of that one
+                # invocation: a plain install now goes to the real prefix
+                i2 = sandbox.run_backend(case['backend'], bld, benv,
+                                         ['install'])
+                got2 = actual_tree(root) if os.path.isdir(root) else {}
+                if i2.rc != 0 or set(got2) != set(exp):
+                    raise Violation(
+                        'install/destdir-sticks', 'after `install DESTDIR=...`'
+                        ' a plain `install` (exit {}) put {} under the '
+                        'prefix, expected {}; staging dir now holds {}'.format(
+                            i2.rc, sorted(os.path.relpath(m, tmp)
+                                          for m in got2)[:6],
+                            sorted(os.path.relpath(m, tmp)
+                                   for m in exp)[:6],
+                            sorted(os.path.relpath(m, tmp) for m in (
+                                actual_tree(dest) if os.path.isdir(dest)
+                                else {}))[:6]), case)
+                u2 = sandbox.run_backend(case['backend'], bld, benv,
+                                         ['uninstall'])
+                left2 = actual_tree(root) if os.path.isdir(root) else {}
+                if u2.rc != 0 or left2:
+                    raise Violation('install/uninstall-leftover', 'plain '
+                                    'uninstall (exit {}) left {}'.format(
+                                        u2.rc, [os.path.relpath(m, tmp)
+                                                for m in sorted(left2)]),
+                                    case)
     return prop
 
 
